@@ -1,7 +1,7 @@
 CHECK = {
     "suites": [suite("conversation", "c16", 3000, 30000, stdin=True, timeout={"quick": 600, "thorough": 2400})],
     "gen": [{"pkg": "extract_c16", "out": "lean/ClusterVerif/Gen/C16.lean"}],
-    "lean_sources": ["ClusterVerif/Model/C16Source.lean", "ClusterVerif/Model/C16Dec.lean", "ClusterVerif/Gen/C16.lean", "ClusterVerif/Model/C16Http.lean", "ClusterVerif/Model/C16.lean", "ClusterVerif/Model/C16Aux.lean", "ClusterVerif/Model/C16Ctx.lean", "ClusterVerif/Model/C16Req.lean", "ClusterVerif/Spec/C16.lean", "ClusterVerif/Lemmas/C16Http.lean", "ClusterVerif/Lemmas/C16.lean", "ClusterVerif/Lemmas/C16Req.lean"],
+    "lean_sources": ["ClusterVerif/Model/C16Source.lean", "ClusterVerif/Model/C16Dec.lean", "ClusterVerif/Gen/C16.lean", "ClusterVerif/Model/C16Http.lean", "ClusterVerif/Model/C16.lean", "ClusterVerif/Model/C16Aux.lean", "ClusterVerif/Model/C16Ctx.lean", "ClusterVerif/Model/C16Req.lean", "ClusterVerif/Model/C16Seq.lean", "ClusterVerif/Spec/C16.lean", "ClusterVerif/Lemmas/C16Http.lean", "ClusterVerif/Lemmas/C16.lean", "ClusterVerif/Lemmas/C16Req.lean", "ClusterVerif/Lemmas/C16Seq.lean"],
     "rule": "cases = (op pin|unpin|PinLsCid, MaxDepth in {-2,-1,0,1,2,7}, Mode, update source none|other|same, 0-13 origins, UnpinDisable, "
             "prior daemon state u|d|r|i of every CID, one daemon behaviour per sequential request: a point of HTTP status (200, other 2xx, 3xx, 4xx, 5xx) x content type x "
             "13 body shapes x 6 transports (complete, nothing, cut, cut after the work was done, stalled before / inside the body) or one of the 21 named wire forms incl. the pin/add stream forms; "
